@@ -10,6 +10,7 @@ must equal the model's single answer.
 -/
 import HtmlVerif.Model.HeadContent
 import HtmlVerif.Props.C10
+import HtmlVerif.Props.C11
 
 namespace HtmlVerif.C18
 open HtmlVerif
@@ -87,5 +88,112 @@ theorem C18_once_per_document (ds : List Node) (d : Node) (h : d ∈ ds) :
         · exact absurd hc.symm e
         · exact hc
       simp [List.filter_cons, e, ih hn.2 hc']
+
+end HtmlVerif.C18
+
+/-! ### "once per document", in the document model
+
+`C18_once_per_document` speaks about `resolve`.  The statements below carry it to `HTMLDocument` itself
+(`Model/Document.lean`, through C11's refinement `docTree = specTree`): what is appended to the one `<head>` is the
+listing followed by exactly one block of markup per element of the resolved list R, in R's order; every
+dependency that occurs anywhere in the (expanded) content — in particular every `head_content(...)` item — has
+exactly one representative in R; the block of a `head_content` item is its payload.  Together with
+`C18_name_iff_content`: two items with equal rendered payload share one block, two items with different payloads
+get one block each, in order of first occurrence. -/
+
+namespace HtmlVerif.C18
+open HtmlVerif HtmlVerif.Doc
+
+/-- the markup appended for a list of dependencies is the concatenation of one block per list element, in list
+    order (positional: the i-th block is the markup of the i-th dependency, and there are as many blocks) -/
+theorem C18_doc_blocks (cfg : Cfg) (lp : Option Str) (iv : Bool) : ∀ (ds : List Node) (ms : Nodes),
+    depMarkupAll cfg lp iv ds = .ok ms →
+    ∃ bs : List Nodes, ds.map (depMarkup cfg lp iv) = bs.map Except.ok ∧
+      ms = bs.foldr (· ++ ·) .nil := by
+  intro ds
+  induction ds with
+  | nil =>
+    intro ms h
+    simp only [depMarkupAll, Except.ok.injEq] at h
+    exact ⟨[], rfl, by simp [← h]⟩
+  | cons d ds ih =>
+    intro ms h
+    obtain ⟨p, rs, hp, hrs, rfl⟩ := ((C11.C11_dep_markup_order cfg lp iv d ds ms).2).mp h
+    obtain ⟨bs, hb, rfl⟩ := ih rs hrs
+    exact ⟨p :: bs, by simp [hp, hb], by simp⟩
+
+/-- the block of a `head_content(*args)` item is its payload (expanded), whatever `lib_prefix` / `include_version` -/
+theorem C18_doc_head_content_block (cfg : Cfg) (H : Str → Str) (r : Nat) (args : Nodes) (x : Node) (lp : Option Str)
+    (iv : Bool) (h : headContent cfg H r args = .ok x) : depMarkup cfg lp iv x = .ok args.expandAll := by
+  unfold headContent at h
+  split at h
+  · cases h
+  · rename_i s hs
+    cases h
+    have hs' : renderListChecked cfg args 0 eolLF true true = .ok s := hs
+    simp [depMarkup, depTags, asHtmlTags, asDict, asDictSheets, asDictScripts, mkTags, hs', Nodes.ofList]
+
+/-- **once per document.**  In the tree of `HTMLDocument(*content, **kw)`: the `<head>` receives the listing of R
+    and then `ms`, which is one block per element of R in R's order; and every dependency `d` of the expanded
+    content (a `head_content` item or any other) is represented by exactly one element of R -/
+theorem C18_doc_head_content_once {cfg : Cfg} {content : Nodes} {kw : List (Str × AttrArg)} {lp : Option Str} {iv : Bool}
+    {t : Node} (h : docTree cfg content kw lp iv = .ok t) (d : Node) (hd : d ∈ content.expandAll.collect) :
+    ∃ (n : Str) (w : Bool) (a : Attrs) (ks ms : Nodes) (bs : List Nodes),
+      t = .tag n w a (withHead (listing (docDeps content) ++ ms) ks) ∧
+      (docDeps content).map (depMarkup cfg lp iv) = bs.map Except.ok ∧ ms = bs.foldr (· ++ ·) .nil ∧
+      ((docDeps content).filter fun r => r.depName == d.depName).length = 1 := by
+  obtain ⟨n, w, a, ks, ms, _, hm, rfl⟩ := C11.C11_tree_shape h
+  obtain ⟨bs, hb, rfl⟩ := C18_doc_blocks cfg lp iv _ _ hm
+  exact ⟨n, w, a, ks, _, bs, rfl, hb, rfl, C18_once_per_document _ d hd⟩
+
+/-- the dependency `head_content(*args)` returns, spelled out -/
+theorem C18_headContent_ok {cfg : Cfg} {H : Str → Str} {r : Nat} {args : Nodes} {x : Node}
+    (h : headContent cfg H r args = .ok x) :
+    x = .dep { name := headcontentPrefix ++ H (renderList cfg args 0 ['\n'] true true), version := ['0', '.', '0'],
+               vrank := r, source := .none, script := [], stylesheet := [], metas := [], allFiles := false } true args := by
+  unfold headContent renderListChecked at h
+  by_cases ht : args.hasTobjKids = true
+  · simp [ht] at h
+  · simp only [ht] at h
+    simp only [Bool.false_eq_true, if_false, Except.ok.injEq] at h
+    exact h.symm
+
+/-- two `head_content` items with **equal** rendered payload in one document: one representative (the first
+    one given), hence one block and one entry in the listing — `R = [a]` (no assumption on the digest) -/
+theorem C18_doc_two_equal (cfg : Cfg) (H : Str → Str) (r : Nat) (pa pb : Nodes) (a b : Node)
+    (ha : headContent cfg H r pa = .ok a) (hb : headContent cfg H r pb = .ok b)
+    (heq : renderList cfg pa 0 ['\n'] true true = renderList cfg pb 0 ['\n'] true true) :
+    docDeps (.cons a (.cons b .nil)) = [a] := by
+  rw [C18_headContent_ok ha, C18_headContent_ok hb]
+  simp [docDeps, Nodes.expandAll, Node.expand, Nodes.collect, resolve, resolveBy, resolveMap, resolveStep,
+    amapGet?, amapSet, depGt, Node.depName, Node.vrank, heq]
+
+/-- two items with **different** rendered payloads are never merged, and keep the order in which they were
+    given — `R = [a, b]` (digest injective: SHA-1's collision resistance, the standing assumption) -/
+theorem C18_doc_two_distinct (cfg : Cfg) (H : Str → Str) (hinj : Function.Injective H) (r : Nat) (pa pb : Nodes)
+    (a b : Node) (ha : headContent cfg H r pa = .ok a) (hb : headContent cfg H r pb = .ok b)
+    (hne : renderList cfg pa 0 ['\n'] true true ≠ renderList cfg pb 0 ['\n'] true true) :
+    docDeps (.cons a (.cons b .nil)) = [a, b] := by
+  rw [C18_headContent_ok ha, C18_headContent_ok hb]
+  have hn : ¬ (headcontentPrefix ++ H (renderList cfg pa 0 ['\n'] true true)
+      = headcontentPrefix ++ H (renderList cfg pb 0 ['\n'] true true)) :=
+    fun e => hne (hinj (List.append_cancel_left e))
+  simp [docDeps, Nodes.expandAll, Node.expand, Nodes.collect, resolve, resolveBy, resolveMap, resolveStep,
+    amapGet?, amapSet, Node.depName, hn]
+
+/-- a concrete document, end to end through `docRender` (the model of `HTMLDocument(...).render()`): two
+    `head_content(title("T"))` items and one `head_content(title("U"))` item below different tags — the markup
+    holds `<title>T</title>` once, then `<title>U</title>`, and the listing names two dependencies.
+    (`H` here is a toy injective digest; the real one is the run-time parameter.) -/
+example :
+    let cfg : Cfg := C11.cfg0
+    let title (s : Str) : Nodes := .cons (.tag ['t', 'i', 't', 'l', 'e'] true [] (.cons (.text s) .nil)) .nil
+    let hc (s : Str) : Node := match headContent cfg (fun x => x) 0 (title s) with | .ok d => d | .error _ => .text []
+    (match docRender cfg (.cons (.tag ['d', 'i', 'v'] true [] (.cons (hc ['T']) (.cons (hc ['U']) .nil)))
+        (.cons (.tag ['p'] true [] (.cons (hc ['T']) .nil)) .nil)) [] none true with
+      | .ok r => some (r.html, r.deps.length)
+      | .error _ => none)
+      = some ("<!DOCTYPE html>\n<html>\n  <head>\n    <meta charset=\"utf-8\"/>\n    <script type=\"application/html-dependencies\">headcontent_<title>T</title>[0.0];headcontent_<title>U</title>[0.0]</script>\n    <title>T</title>\n    <title>U</title>\n  </head>\n  <body>\n    <div></div>\n    <p></p>\n  </body>\n</html>".toList, 2) := by
+  decide +kernel
 
 end HtmlVerif.C18
